@@ -505,10 +505,15 @@ void bufr_set_key_int32( BufrDescValue *cv, int descriptor, int *values, int nbv
    for (i = 0; i < nbval ; i++)
       {
 		if( bufr_is_missing_int(values[i]) )
+			{
+			/* a new FLT32 value is missing: storing the integer -1 in it would make it -1.0 */
 			cv->values[i] = bufr_create_value( VALTYPE_FLT32 );
+			}
 		else
+			{
 			cv->values[i] = bufr_create_value( VALTYPE_INT32 );
-      bufr_value_set_int32( cv->values[i], values[i] );
+			bufr_value_set_int32( cv->values[i], values[i] );
+			}
       }
    }
 
@@ -647,10 +652,15 @@ void bufr_set_key_qualifier_int32( BufrDescValue *cv, int descriptor,
    cv->descriptor = descriptor | QUAL_FLAG_BIT;
    bufr_valloc_DescValue( cv, 1 );
 	if( bufr_is_missing_int(value) )
+		{
+		/* a new FLT32 value is missing: storing the integer -1 in it would make it -1.0 */
 		cv->values[0] = bufr_create_value( VALTYPE_FLT32 );
+		}
 	else
+		{
 		cv->values[0] = bufr_create_value( VALTYPE_INT32 );
-	bufr_value_set_int32( cv->values[0], value );
+		bufr_value_set_int32( cv->values[0], value );
+		}
    }
 
 /**
